@@ -174,6 +174,7 @@ type Frame struct {
 
 type Exec struct {
 	curSite ssa.Instruction // the call instruction being executed (for static call-site ordinals)
+	callBinds []Val         // captured-variable cells of the closure being called modularly
 	E       *Engine
 	fn      *ssa.Function
 	fc      *FuncContract
@@ -477,6 +478,17 @@ func (x *Exec) oblige(st *State, kind, label string, goal *Term, src, where stri
 			x.recoverPath(st2, x.curFr)
 		}
 		return
+	}
+	if kind == "safe" && x.fc != nil {
+		// "nosafe KIND ...": the contract does not claim these run-time checks (reported as an assumption)
+		if ns, ok := x.fc.Flags["nosafe"]; ok {
+			for _, k := range strings.Fields(ns) {
+				if k == label || k == "all" {
+					x.E.noteAssumption(fmt.Sprintf("NOT CLAIMED (nosafe %s) in %s: run-time checks of this kind are assumed to pass", k, relName(x.fn)))
+					return
+				}
+			}
+		}
 	}
 	x.E.addOblig(x, st, kind, label, goal, src, where, nil)
 }
